@@ -832,6 +832,12 @@ func (c *FnCtx) evalCompositeLit(st *State, x *ast.CompositeLit, addr bool) *Ter
 		for i, v := range elems {
 			st.pc = append(st.pc, mkEq(c.sliceAt(lit, intLit(int64(i))), v))
 		}
+		if addr {
+			// &S{...} for a (named) slice type: a fresh cell holding the slice value
+			r := c.allocRef(st, "sliceptr")
+			c.storeCell(st, r, t, lit.withGo(t))
+			return r.withGo(types.NewPointer(t))
+		}
 		return lit.withGo(t)
 	case *types.Map:
 		r := c.newMap(st, u)
